@@ -7,6 +7,7 @@ import (
 	"strings"
 
 	sdk "github.com/cosmos/cosmos-sdk/types"
+	txtypes "github.com/cosmos/cosmos-sdk/types/tx"
 	"github.com/ethereum/go-ethereum/common"
 	"github.com/ethereum/go-ethereum/crypto"
 	"github.com/prysmaticlabs/prysm/v4/crypto/bls/blst"
@@ -138,7 +139,7 @@ func init() {
 			if op.B&0x80 != 0 {
 				assets = append(assets, "0xdeaddeaddeaddeaddeaddeaddeaddeaddeaddead_0x65")
 			}
-			minSelf := []uint64{0, 0, 1, 50, 1000000}[((op.E%5)+5)%5]
+			minSelf := []uint64{0, 0, 1, 50, 1000000, 1 << 63, 1<<64 - 1}[((op.E%7)+7)%7] // the last two do not fit an int64
 			unb := uint64(7)
 			if op.N != 0 {
 				unb = uint64(op.N)
@@ -214,7 +215,7 @@ func init() {
 		bt.AVS = &AVSTx{Kind: op.K, AVS: u.Eth.String(), Operator: who.Addr.String(), Out: op.M == 1}
 		return bt, r.ethCall(ctx, u, AVSPrecompile, data, bt)
 	}
-	// blsreg: operator C registers BLS key D. E: 1 signature by another key, 2 message hash of
+	// blsreg: operator C registers BLS key D (M=1: user A sends the call naming operator C). E: 1 signature by another key, 2 message hash of
 	// 31 bytes, 3 garbage public key, 4 message hash of 40 bytes
 	extraBuilders["blsreg"] = func(r *Run, ctx sdk.Context, op Op) (*BuiltTx, error) {
 		w := r.W
@@ -241,7 +242,11 @@ func init() {
 			return nil, err
 		}
 		bt.AVS = &AVSTx{Kind: op.K, Operator: o.Addr.String(), PubKey: pub}
-		return bt, r.ethCall(ctx, o.Account, AVSPrecompile, data, bt)
+		from := o.Account
+		if op.M == 1 {
+			from = w.User(op.A) // somebody else registers a key in the operator's name
+		}
+		return bt, r.ethCall(ctx, from, AVSPrecompile, data, bt)
 	}
 	// avstask: the task contract (user A) creates a task. D response period, E statistical
 	// period, N challenge period, M 1: sender argument is not an owner, S name ("-" empty)
@@ -277,7 +282,9 @@ func init() {
 	// D the response's number, C BLS key index, E variant:
 	// 1 response carries another task id, 2 signed with another key, 3 phase-one with response /
 	// phase-two without, 4 no signature, 5 message signer is not the operator, 6 lower-case task
-	// contract address, 7 malformed response, 8 no info at all
+	// contract address, 7 malformed response, 8 no info at all, 9 signature field PRESENT BUT EMPTY
+	// on the wire (bytes 0x22 0x00, which the generated marshaller never emits and the decoder turns
+	// into a non-nil empty slice), 10 operator and signer spelled in UPPER-CASE bech32
 	extraBuilders["avsres"] = func(r *Run, ctx sdk.Context, op Op) (*BuiltTx, error) {
 		w := r.W
 		o := w.Op(op.A)
@@ -311,9 +318,27 @@ func init() {
 			info.OperatorAddress = w.Op(op.A + 1).Addr.String()
 		case 6:
 			info.TaskContractAddress = strings.ToLower(taskAddr)
+		case 9:
+			info.BlsSignature = nil
+		case 10:
+			info.OperatorAddress = strings.ToUpper(o.Addr.String())
 		}
-		msg := &avstypes.SubmitTaskResultReq{FromAddress: o.Addr.String(), Info: info}
-		a := &AVSTx{Kind: op.K, TaskAddr: info.TaskContractAddress, Operator: info.OperatorAddress, From: o.Addr.String(), TaskID: id,
+		msg := &avstypes.SubmitTaskResultReq{FromAddress: info.OperatorAddress, Info: info}
+		if op.E == 5 {
+			msg.FromAddress = o.Addr.String()
+		}
+		if op.E == 9 {
+			ib, err := info.Marshal()
+			if err != nil {
+				return nil, err
+			}
+			ib = append(ib, 0x22, 0x00) // field 4 (bls_signature), length 0
+			raw := protoBytesField(nil, 1, []byte(msg.FromAddress))
+			raw = protoBytesField(raw, 2, ib)
+			r.txMutate = func(t *txtypes.Tx) { t.Body.Messages[0].Value = raw }
+			info.BlsSignature = []byte{}
+		}
+		a := &AVSTx{Kind: op.K, TaskAddr: info.TaskContractAddress, Operator: info.OperatorAddress, From: msg.FromAddress, TaskID: id,
 			Stage: stage, Sig: info.BlsSignature, Response: info.TaskResponse}
 		if op.E == 8 {
 			msg.Info = nil
@@ -360,4 +385,16 @@ func init() {
 		bt.AVS = &AVSTx{Kind: op.K, TaskAddr: taskAddr, Operator: o.Addr.String(), TaskID: id}
 		return bt, r.ethCall(ctx, t, AVSPrecompile, data, bt)
 	}
+}
+
+// protoBytesField appends a length-delimited protobuf field.
+func protoBytesField(b []byte, num int, v []byte) []byte {
+	b = append(b, byte(num<<3|2))
+	n := uint64(len(v))
+	for n >= 0x80 {
+		b = append(b, byte(n)|0x80)
+		n >>= 7
+	}
+	b = append(b, byte(n))
+	return append(b, v...)
 }
